@@ -179,7 +179,7 @@ var props = []*PropDef{
 			{Pkg: "datamatrix", File: "c02_dm_test.go", Run: "^TestVerifC12DM$", Bound: boundedNote},
 		},
 		Assumptions: []string{asmRS, "Aztec: stuffBits is abstracted by its contract (length bounds; its length is the spec function azStuffLen(bits, wordSize)); the check-word count is what generateCheckWords is asked for (its body: C17 / bounded)"},
-		Note:        "QR: [C] drawFormatInfo writes the BCH word of the row's level ([T] formatInfos) into both copies, [T] block table = ISO check-word counts. PDF417: [C] indicators carry 3*level + (rows-1) mod 3 per ISO, Compute is asked for and the symbol holds 2^(level+1) check words. DataMatrix: [C]+[T] ECC 200 counts per size. Aztec: [C] for each of the 36 explicit sizes and for every path of the automatic selection, the accepted size holds the stuffed data plus eccBits = bits*pct/100 + 11 check bits within its usable bits (ecc-honoured / fits), for all payloads and all percentages 0..1000.",
+		Note:        "QR: [C] drawFormatInfo writes the BCH word of the row's level ([T] formatInfos) into both copies, [T] block table = ISO check-word counts. PDF417: [C] indicators carry 3*level + (rows-1) mod 3 per ISO, Compute is asked for and the symbol holds 2^(level+1) check words. DataMatrix: [C]+[T] ECC 200 counts per size. Aztec: [C] for each of the 36 explicit sizes and for every path of the automatic selection, the accepted size holds the stuffed data plus eccBits = bits*pct/100 + 11 check bits within its usable bits (ecc-honoured / fits), for all payloads and every non-negative int percentage.",
 	},
 	{
 		ID:     "C13",
